@@ -1338,7 +1338,9 @@ class CSym(object):
                 if self.same_index(e.idx, p.off):
                     if e.op != "=":
                         raise CUnsupported("read of %s after an accumulating store in the same iteration" % p.arr.name)
-                    if [g.id for g in e.guards] != [g.id for g in self.guards][:len(e.guards)]:
+                    # events of code run by every thread carry the (always true) range of the thread index as two leading guards
+                    eg = e.guards[2:] if e.level == "thread" else e.guards
+                    if [g.id for g in eg] != [g.id for g in self.guards][:len(eg)]:
                         raise CUnsupported("read of %s written under a different guard" % p.arr.name)
                     return e.val
                 if len(eq_) == len(cur_q) or any(q in tm.subterms(e.idx).values() for q in eq_):
